@@ -29,12 +29,13 @@ Lemma op_keeps runf o p :
 Proof.
   intros Hr. destruct p; cbn [apply_op fst].
   - unfold set_seed, read_hshelf, build_shelf, same_config. cbn.
-    destruct (s =? o_seedUsed o), (o_var o); cbn; auto.
-  - unfold read_hshelf, build_shelf, same_config. destruct (o_seed o =? o_seedUsed o), (o_var o); cbn; auto.
+    destruct (s =? o_seedUsed o), (o_stale o), (o_var o); cbn; auto.
+  - unfold read_hshelf, build_shelf, same_config. destruct (o_seed o =? o_seedUsed o), (o_stale o), (o_var o) eqn:Hv; cbn; auto.
   - unfold read_hint, build_matrices, build_shelf, same_config. destruct (o_built o), (o_var o); cbn; auto.
   - unfold build_matrices, build_shelf, same_config. destruct (o_var o); cbn; auto.
   - unfold record_random, same_config. cbn; auto.
   - specialize (Hr d o). destruct (runf d o) as [o' r]. cbn [fst] in *. exact Hr.
+  - unfold set_config, same_config. cbn; auto.
 Qed.
 
 (* the seed in force after a history: the last one assigned *)
@@ -109,6 +110,21 @@ Lemma standalone_run s N var d : snd (run d (new_obj s N var)) = expected s N va
 Proof.
   rewrite run_outcome. unfold new_obj, build_shelf. destruct var; reflexivity.
 Qed.
+
+(* the configuration re-declared on a used object (configPath setter, as repaired): the next run is the run of a fresh object *)
+Lemma seed_after_set_config h : forall s, seed_after s (h ++ [SetConfig]) = seed_after s h.
+Proof. induction h as [|p h IH]; intros s; [reflexivity|]. destruct p; cbn [app seed_after]; apply IH. Qed.
+
+Lemma history_snoc_set_config h : forall o, fst (history run o (h ++ [SetConfig])) = set_config (fst (history run o h)).
+Proof.
+  induction h as [|p h IH]; intros o; [reflexivity|].
+  cbn [app history]. destruct (apply_op run o p) as [o1 x]. specialize (IH o1).
+  destruct (history run o1 h) as [o2 xs]. destruct (history run o1 (h ++ [SetConfig])) as [o3 ys]. cbn [fst] in *. exact IH.
+Qed.
+
+Lemma run_after_set_config h d o :
+  snd (run d (set_config (fst (history run o h)))) = expected (seed_after (o_seed o) h) (o_N o) (o_var o).
+Proof. rewrite <- history_snoc_set_config, last_run_history_independent, seed_after_set_config. reflexivity. Qed.
 
 (* ---- the pinned revision violated the property (witnesses by computation) ----------------------- *)
 Example pinned_fresh_vs_template_refuted :
